@@ -24,6 +24,14 @@ without value; inside callees (rolled back with them; the attempt counter is not
 attempt gets is already taken (collision rule). Compared in addition: the code of the created accounts (`C<addr>=…`),
 their storage and balances. Not generated: init code with symbolic bytes, CREATE2.
 
+Storage at hashed locations (Model.SevmCalls with `Cfg.hsto`): Solidity mapping cells `m[key]` (slot
+keccak(key ‖ base), bases 5 and 6; keys symbolic — calldata words, CALLER / ADDRESS / CALLVALUE — or literal, the same
+key again or another one) and dynamic-array elements `a[i]` (slot keccak(base) + i, bases 7 and 8; literal indices, 0
+included, and symbolic ones, masked to a byte in callees) are stored and loaded, in the program under test and in
+callees (rolled back with a failing frame, the caller's cells under DELEGATECALL / CALLCODE); the loaded values go to the
+memory the program returns. Not generated: nested mappings, packed / non-256-bit keys, struct offsets, literal
+locations far from every registered hash (plain slots beyond 2^64), hashed TLOAD / TSTORE.
+
 What the generator deliberately avoids, because there the model is an approximation or z3's simplifier is stronger than
 the driver's (Driver/Sevm.lean: constant folding + double-negation elimination):
   * symbolic values in the positions `int_of` concretises through `substitute(x, substitution)` (JUMPI/JUMP targets,
@@ -413,8 +421,28 @@ class CoreGen:
         self.count("mem:MSTORE")
         return self._arr_loc(idx, base) + ["SLOAD", ("push", r.choice([0, 32, 64, 0x140, 0x160])), "MSTORE"]
 
+    def arr_pattern(self):
+        """two stores to different elements (another index, or the same index of the other array), then both loaded:
+        an access that ignores the index, the base or the offset of a literal location shows"""
+        r = self.rng
+        base = r.choice([7, 8])
+        i = [("push", r.choice([0, 1, 2]))]
+        if r.random() < 0.5:
+            j, base2 = [("push", r.choice([3, 5, 255]))], base
+        else:
+            j, base2 = (i if r.random() < 0.5 else self.arg() + [("push", 0xFF), "AND"]), 15 - base
+        self.count("arr:pattern")
+        self.count("mem:MSTORE")
+        v1, v2 = r.choice([0x11, 0x22]), r.choice([0x33, 0x44])
+        return ([("push", v1)] + self._arr_loc(i, base) + ["SSTORE"] + [("push", v2)] + self._arr_loc(j, base2) + ["SSTORE"]
+                + self._arr_loc(i, base) + ["SLOAD", ("push", 0x140), "MSTORE"]
+                + self._arr_loc(j, base2) + ["SLOAD", ("push", 0x160), "MSTORE"])
+
     def map_stmt(self):
-        if self.rng.random() < 0.35:
+        k = self.rng.random()
+        if k < 0.15:
+            return self.arr_pattern()
+        if k < 0.4:
             return self.arr_stmt()
         return self._map_stmt()
 
